@@ -9,14 +9,14 @@ from discsim import ascii_bytes, rb
 OTHER_TYPES = [0xA1, 0xAB, 0xB0, 0xCA, 0xDB, 0xE1, 0xFA, 0xFC, 0x00, 0xFF]
 
 
-def good_reply(ctx, rng, version=None, dtype=None, dev_id=None):
+def good_reply(ctx, rng, version=None, dtype=None, dev_id=None, zero_fill=False):
     # a well-formed reply of ANY appliance type is a good reply (non-AC units are reported as generic devices)
     if dtype is None:
         dtype = 0xAC if rng.random() < 0.6 else rng.choice(OTHER_TYPES + [rng.randrange(256)])
     sn = ascii_bytes(rng, 32)
     name = b"net_" + (b"%02x" % dtype) + b"_" + ascii_bytes(rng, 4)
     return discsim.spec_reply(ctx, rng, version or rng.choice([2, 3]), rng.randrange(2 ** 48) if dev_id is None else dev_id,
-                              "10.1.1.1", 6444, sn, name)
+                              "10.1.1.1", 6444, sn, name, zero_fill=zero_fill)
 
 
 def bad_reply(ctx, rng, kind):
@@ -181,6 +181,32 @@ def run(ctx):
                 dg.append((ip, 6446, p))
         rng.shuffle(dg)
         scenario(ctx, "same_device_id", rng, dg, {ip: True for ip in hosts})
+    # units with unset clocks: every free byte of the replies (message id, timestamp, fillers, V3 envelope) is zero, so that
+    # different units differ only in their identity; all-V3, all-V2 and mixed scans
+    for _ in range(6 if not thorough else 60):
+        n = rng.randrange(2, 5)
+        hosts = ips[:n]
+        vers = rng.choice([[3] * n, [2] * n, [rng.choice([2, 3]) for _ in range(n)]])
+        dg = [(ip, 6445, good_reply(ctx, rng, version=v, zero_fill=True)) for ip, v in zip(hosts, vers)]
+        rng.shuffle(dg)
+        scenario(ctx, "unset_clocks", rng, dg, {ip: True for ip in hosts})
+    # discover_single: malformed datagrams of OTHER hosts arriving before the target's reply do not matter (the API returns
+    # the first device found, so well-formed strays are left out: which host is "first" is not specified)
+    for _ in range(12 if not thorough else 150):
+        target = ips[0]
+        strays = []
+        for _k in range(rng.randrange(1, 4)):
+            ip = rng.choice(ips[1:])
+            strays.append((ip, rng.choice([6445, 50000]), bad_reply(ctx, rng, rng.choice(BAD_KINDS))))
+        reply = good_reply(ctx, rng)
+        dgs = [(0.05 + 0.01 * i, ip, sp, p) for i, (ip, sp, p) in enumerate(strays)] + [(0.05 + 0.01 * len(strays), target, 6445, reply)]
+        out = discsim.run_discover(dgs, single=True, target=target)
+        inp = {"target": target, "strays_before": [(ip, len(p)) for ip, _sp, p in strays]}
+        res = out.get("result") or []
+        if "exc" in out or len(res) != 1 or res[0].ip != target:
+            ctx.violate("single_with_strays", inp, {"exc": str(out.get("exc"))[:60], "found": [d.ip for d in res]}, [target],
+                        "discover_single did not report the target because of datagrams from other hosts")
+        ctx.case("single_with_strays", key=str((inp, hx(reply))), sample=inp)
     # random larger cases
     for _ in range(60 if not thorough else 1500):
         hosts = ips[:rng.randrange(1, 5)]
